@@ -31,6 +31,10 @@ HAND = [
  (["param (p, q)\nw := 7", "return [p, q, w]"], "return [p, q, w]"),
  (["param (p, ...q)\nc := 1\nreturn [p, q, c]", "return [p, q, c]"], "return [p, q, c]"),
  (["param (...q)\nc := 1", "return [q, c]"], "return [q, c]"),
+ # the host's arguments wait for a param statement of a later fragment (no variable declared before it)
+ (["return 1 + 1", "param (p, q)\nreturn [p, q]", "return q"], "return [p, q]"),
+ (["const k = 2\nglobal g0", "return k + 1", "param (p, ...q)", "w := [p, q]\nreturn w"], "return [p, q, w, k]"),
+ (["println(1)", "param p", "param_used := p\nreturn p"], "return [p, param_used]"),
  # a param statement after variables exist (in the same or an earlier fragment)
  (["x := 1", "param ...v", "return x"], "return [x]"),
  (["x := 1\ny := 2", "param (a, ...v)", "return [x, y]"], "return [x, y]"),
